@@ -92,13 +92,13 @@ static void explore(Result& R) {
         if (!th && mem == 1 && pop != 0 && pop != 3) continue;
         if (!R.args.mine(unit++)) continue;
         if (R.out_of_time(0.9)) { R.cap("deadline"); goto done; }
-        Case c{dt, a, b, pop, mem}; cases++; g_obs.clear(); std::string e = run_case(c, &iters, &files, &rows); R.mix(g_obs + e);
+        Case c{dt, a, b, pop, mem}; cases++; g_obs.clear(); const long files_before = files; std::string e = run_case(c, &iters, &files, &rows); R.mix(g_obs + e); if (files > files_before) R.distinct_case(g_obs);
         if (!e.empty()) R.violation(clause_of(e).substr(0, 60) + "|" + pop_name[pop], case_json(c) + ": " + e, "case=" + case_text(c) + "\n");
         if (cases % 150 == 1) R.sample(case_json(c)); }
 done:
     sw::cleanup_scratch();
     R["evaluations"] = cases; R["states"] = cases; R["transitions"] = iters; R["distinct_nontrivial"] = cases; R["traces_validated_against_impl"] = cases; R["solver_iterations"] = iters; R["mesh_file_pairs_checked"] = files; R["statistics_rows_checked"] = rows;
-    R.strings["rule"] = "a case = (dt, S/dt, T/S, population history, statistics sink); the real solver::run is executed in a private folder with quiescent physics and population events injected through the H6 'begin' hook (division at iteration 5, removal at 3 / 12, extinction at 7); the hook records the population at every save and statistics point; afterwards the folder contents, every file (independent tokenizer) and every statistics row are compared with the records";
+    R.strings["rule"] = "distinct_nontrivial = number of DISTINCT observed outputs (hash of everything the run wrote and reported) among cases that wrote at least one mesh file pair; a case = (dt, S/dt, T/S, population history, statistics sink); the real solver::run is executed in a private folder with quiescent physics and population events injected through the H6 'begin' hook (division at iteration 5, removal at 3 / 12, extinction at 7); the hook records the population at every save and statistics point; afterwards the folder contents, every file (independent tokenizer) and every statistics row are compared with the records";
     R.assumptions = {"physics is quiescent (zero tensions, negligible bulk modulus, heavy nodes) so that every dt of the lattice is stable; population events are injected, not grown", "wall-clock column of the statistics is ignored", "K within one of T/S+1 is not demanded of runs that end by extinction"};
 }
 static int replay(const Replay& rp, Result& R) { Case c = case_parse(rp.get("case")); std::string e1 = run_case(c), e2 = run_case(c); sw::cleanup_scratch(); if (e1 != e2) { printf("replay diverged: %s / %s\n", e1.c_str(), e2.c_str()); return 0; } printf("%s\n%s\n", case_json(c).c_str(), e1.c_str()); if (!e1.empty()) { R.violation(clause_of(e1), e1, ""); return 1; } return 0; }
